@@ -85,6 +85,11 @@ def check_op(meta, interp, ex, name, k, V, cov):
             # EXPACC is emitted by the assembler only after PAD or a previous EXPACC, so the current
             # top (the previous bit) is binary; the AIR's top-binary general constraint relies on it
             pre.append(S.is_bin(S.s[0]))
+        # cells the path condition pins to a constant (e.g. the condition of CSWAP / CSWAPW on the
+        # path where it is 1) enter the constraints as that constant: products with them fold away
+        pinned = pinned_constants(ctx, res.pc)
+        if pinned:
+            vm = {cell: (l.subst_consts(pinned) if l is not None else None) for cell, l in vm.items()}
         try:
             roots = load_dag(ctx, r["arena"], [r["roots"][i] for i in idx], varmap=vm)
         except Exception as e:
@@ -116,6 +121,26 @@ def check_op(meta, interp, ex, name, k, V, cov):
                 V.add(oname, "inconclusive", detail=str(info))
     if n_ok == 0:
         V.add(f"{name}[k={k}]:some-ok-path", "inconclusive", detail="no successful path")
+
+
+def pinned_constants(ctx, pc):
+    """{atom name: value} for path-condition conjuncts of the form  value(atom) == constant"""
+    out = {}
+    names = {v.get_id(): k for k, v in ctx.atoms.items()}
+
+    def visit(e):
+        if z3.is_and(e):
+            for ch in e.children():
+                visit(ch)
+        elif z3.is_eq(e):
+            a, b = e.arg(0), e.arg(1)
+            if z3.is_int_value(a):
+                a, b = b, a
+            if z3.is_int_value(b) and a.get_id() in names:
+                out[names[a.get_id()]] = b.as_long() % P
+    for c_ in pc:
+        visit(c_)
+    return out
 
 
 def _known_atoms(res):
@@ -153,7 +178,7 @@ def native_traces(V, cov):
     d = os.path.join(WORK, "replay")
     os.makedirs(d, exist_ok=True)
     jf, of = os.path.join(d, "c03.in.json"), os.path.join(d, "c03.out.json")
-    jobs = [{"kind": "trace_check", "source": src, "stack": [str(x) for x in st]} for _, src, st in PROGRAMS]
+    jobs = [{"kind": "trace_check", "source": src, "stack": [str(x) for x in st], "aux": True} for _, src, st in PROGRAMS]
     json.dump({"jobs": jobs}, open(jf, "w"))
     run([binp, jf, of])
     res = json.load(open(of))["results"]
@@ -162,9 +187,9 @@ def native_traces(V, cov):
             V.add(f"native-trace:{pname}", "inconclusive", detail=str(r)[:200])
             continue
         cov["native_rows"] += r["rows"]
-        if r["nonzero"] or r["bad_assertions"]:
+        if r["nonzero"] or r["bad_assertions"] or r.get("bad_aux_assertions"):
             path = save_replay(PROP, f"trace_{pname}", dict(kind="trace_check", source=src, stack=st, result=r))
-            V.violation(f"native-trace:{pname}", path, f"real trace of `{pname}` violates the AIR: {r['nonzero'][:3]} bad assertions {r['bad_assertions']}",
+            V.violation(f"native-trace:{pname}", path, f"real trace of `{pname}` violates the AIR: {r['nonzero'][:3]} bad assertions {r['bad_assertions']}, bad aux assertions {r.get('bad_aux_assertions')}",
                         key=f"trace:{pname}")
         else:
             V.add(f"native-trace:{pname}", "discharged", detail=f"{r['rows']} rows x {r['constraints']} constraints all zero; boundary assertions hold")
@@ -230,6 +255,9 @@ def main():
     cov["candidates"] = []
     if not only:
         native_traces(V, cov)
+        # auxiliary column p1 (stack overflow table): the builder's per-row requests / responses vs. the AIR's own shift flags
+        import c03_aux
+        c03_aux.run(meta, V, cov)
     c = V.counts()
     for o in V.obligations:
         if o["status"] == "candidate":
@@ -241,8 +269,11 @@ def main():
         obligations=len(V.obligations), discharged=c.get("discharged", 0),
         traces_validated_against_impl=cov["native_rows"],
         operations_not_covered=not_cov,
-        functions_encoded=["Process::execute_op + op_* bodies (MIR, Engine C)", "ProcessorAir::evaluate_transition::<Sym> (Engine A)"],
-        bounds=f"one operation from an arbitrary state, depth regimes 16+k for k in {regimes}; control-flow rows, hasher/memory/bitwise chiplet rows, aux columns and whole-trace composition are outside (native whole-trace evaluation of {len(PROGRAMS)} programs is validation, not the claim)",
+        functions_encoded=["Process::execute_op + op_* bodies (MIR, Engine C)", "ProcessorAir::evaluate_transition::<Sym> (Engine A)",
+                           "aux p1: processor stack::aux_trace::AuxTraceBuilder::{get_requests_at,get_responses_at}, OverflowTableRow::{new,to_value}, "
+                           "miden-air MainTrace::{is_left_shift,is_right_shift,is_non_empty_overflow,..} (MIR) vs. miden_air::stack::op_flags::OpFlags::{left_shift,right_shift} (Engine A)"],
+        aux_p1=dict(opcodes=cov.get("aux_p1_opcodes"), paths=cov.get("aux_p1_paths"), queries=cov.get("aux_p1_queries")),
+        bounds=f"one operation from an arbitrary state, depth regimes 16+k for k in {regimes}; control-flow rows, hasher/memory/bitwise chiplet rows, aux columns other than the per-row update of p1 (every opcode pattern, other cells symbolic) and b_range, and whole-trace composition are outside (native whole-trace evaluation of {len(PROGRAMS)} programs is validation, not the claim)",
         queries=cov["queries"], solver_time_s=round(cov["solver_time_s"], 2),
         sources_fingerprint=repo_fingerprint(["processor/src/operations", "processor/src/stack", "air/src/constraints/stack"]),
         evaluations=len(V.obligations), distinct_nontrivial=c.get("discharged", 0),
